@@ -234,9 +234,18 @@ func RandomCFList(r *cq.RNG) *lorawan.CFList {
 		return nil
 	case 1:
 		var c lorawan.CFListChannelPayload
-		for i := range c.Channels {
-			if r.Intn(4) != 0 {
-				c.Channels[i] = uint32(r.Intn(1<<24)) * 100
+		switch r.Intn(6) {
+		case 0: // no channel at all: a 16-byte all-zero CFList
+		case 1: // unused slots in the middle
+			c.Channels[0] = uint32(1+r.Intn(1<<24-1)) * 100
+			c.Channels[2+r.Intn(3)] = uint32(1+r.Intn(1<<24-1)) * 100
+		case 2: // only the last slot
+			c.Channels[4] = uint32(1+r.Intn(1<<24-1)) * 100
+		default:
+			for i := range c.Channels {
+				if r.Intn(4) != 0 {
+					c.Channels[i] = uint32(r.Intn(1<<24)) * 100
+				}
 			}
 		}
 		return &lorawan.CFList{CFListType: lorawan.CFListChannel, Payload: &c}
